@@ -292,10 +292,12 @@ def run_task(task):
     part = new_partial()
     for i in range(task["start"], task["start"] + task["n"]):
         s = sub_seed(task["seed"], ID, task["fam"], i)
-        if task["fam"] == "msg":
-            run_msg_base(s, task["tier"], part)
-        elif task["fam"] == "file":
-            run_file_base(s, task["tier"], part)
+        if task["fam"] in ("msg", "file"):
+            try:
+                (run_msg_base if task["fam"] == "msg" else run_file_base)(s, task["tier"], part)
+            except corrupt.BaseNotWritable:
+                # the real writer refused the well-formed base object: C06's business, not C07's
+                part["counters"]["probe:base_object_not_writable"] += 1
         elif task["fam"] == "raw":
             scn = gen_raw(s)
             b, out, cfg, enc, hexb = corrupt.run_message(scn)
